@@ -25,7 +25,7 @@ import (
 // fails).  No reply may ever deliver the upstream records.
 func TestVerifC02Reload(t *testing.T) {
 	rep := verifkit.New("C02", "reload",
-		"case = one query for a unique name whose scripted upstream answer is a CNAME to a name / an address blocked by a custom rule that every configuration of the run contains, sent while the engines are being rebuilt (set_rules with other rules changed, forced refresh of a 4000-rule list, set_rules while an enabled list's file cannot be opened); the reply must be the blocking-mode answer; non-trivial = the query overlapped an admin operation in time; distinct by query number")
+		"case = one query for a unique name whose scripted upstream answer is a CNAME to a name / an address blocked by a custom rule that every configuration of the run contains, or a CNAME to one of 400 names that every version of the subscribed list blocks (must be replaced), or a CNAME to a name that a custom rule blocks and the subscribed allowlist allows in every configuration (must be delivered), sent while the engines are being rebuilt (set_rules with other rules changed, forced refresh of a 4000-rule list, set_rules while an enabled list's file cannot be opened); the reply must be the blocking-mode answer; non-trivial = the query overlapped an admin operation in time; distinct by query number")
 	defer func() {
 		if err := rep.Write(); err != nil {
 			t.Fatal(err)
@@ -46,6 +46,8 @@ func TestVerifC02Reload(t *testing.T) {
 			return
 		}
 		const badName, badIP = "cdn.bad.reload.test", "203.0.113.77"
+		const okName = "allowed.ok.reload.test"
+		const permNum = 400
 		vs.Up.Script = func(req *dns.Msg, n int) (ans []dns.RR, rcode int) {
 			q := req.Question[0]
 			if q.Qtype != dns.TypeA {
@@ -58,6 +60,17 @@ func TestVerifC02Reload(t *testing.T) {
 				tgt := "late-" + strings.TrimPrefix(lbl[:strings.LastIndex(lbl, "-")], "bylate-") + ".bad.reload.test."
 				ans = append(ans, &dns.CNAME{Hdr: dns.RR_Header{Name: q.Name, Rrtype: dns.TypeCNAME, Class: dns.ClassINET, Ttl: 60}, Target: tgt})
 				ans = append(ans, &dns.A{Hdr: dns.RR_Header{Name: tgt, Rrtype: dns.TypeA, Class: dns.ClassINET, Ttl: 60}, A: net.IPv4(198, 18, 7, 8).To4()})
+			} else if strings.HasPrefix(q.Name, "bylist") {
+				// CNAME to one of 400 names that every version of the
+				// subscribed list (a file) blocks.
+				tgt := "perm-" + strings.SplitN(q.Name, "-", 3)[1] + ".listed.reload.test."
+				ans = append(ans, &dns.CNAME{Hdr: dns.RR_Header{Name: q.Name, Rrtype: dns.TypeCNAME, Class: dns.ClassINET, Ttl: 60}, Target: tgt})
+				ans = append(ans, &dns.A{Hdr: dns.RR_Header{Name: tgt, Rrtype: dns.TypeA, Class: dns.ClassINET, Ttl: 60}, A: net.IPv4(198, 18, 7, 10).To4()})
+			} else if strings.HasPrefix(q.Name, "byallowed") {
+				// CNAME to a name that a custom rule blocks and a rule of the
+				// subscribed allowlist allows, in every configuration.
+				ans = append(ans, &dns.CNAME{Hdr: dns.RR_Header{Name: q.Name, Rrtype: dns.TypeCNAME, Class: dns.ClassINET, Ttl: 60}, Target: dns.Fqdn(okName)})
+				ans = append(ans, &dns.A{Hdr: dns.RR_Header{Name: dns.Fqdn(okName), Rrtype: dns.TypeA, Class: dns.ClassINET, Ttl: 60}, A: net.IPv4(198, 18, 7, 9).To4()})
 			} else if strings.HasPrefix(q.Name, "byname") {
 				ans = append(ans, &dns.CNAME{Hdr: dns.RR_Header{Name: q.Name, Rrtype: dns.TypeCNAME, Class: dns.ClassINET, Ttl: 60}, Target: dns.Fqdn(badName)})
 				ans = append(ans, &dns.A{Hdr: dns.RR_Header{Name: dns.Fqdn(badName), Rrtype: dns.TypeA, Class: dns.ClassINET, Ttl: 60}, A: net.IPv4(198, 18, 7, 7).To4()})
@@ -67,16 +80,19 @@ func TestVerifC02Reload(t *testing.T) {
 
 			return ans, dns.RcodeSuccess
 		}
-		fixed := []string{"||" + badName + "^", "||" + badIP + "^"}
+		fixed := []string{"||" + badName + "^", "||" + badIP + "^", "||" + okName + "^"}
 		bulk := func(ver int) (out []string) {
 			for i := 0; i < 4000; i++ {
 				out = append(out, fmt.Sprintf("||bulk%d-%d.bulk.test^", ver, i))
+			}
+			for i := 0; i < permNum; i++ {
+				out = append(out, fmt.Sprintf("||perm-%d.listed.reload.test^", i))
 			}
 
 			return out
 		}
 		ls.set("/bulk.txt", bulk(0))
-		ls.set("/allow.txt", []string{"||unrelated.allow.test^"})
+		ls.set("/allow.txt", []string{"||unrelated.allow.test^", "||" + okName + "^"})
 		okSetup := true
 		for _, c := range []struct {
 			path string
@@ -95,7 +111,11 @@ func TestVerifC02Reload(t *testing.T) {
 		inForce := false
 		for w := 0; w < 400 && okSetup && !inForce; w++ {
 			resp, xerr := vkExchange(vs, "127.0.0.1", false, fmt.Sprintf("byname-warm%d.reload.test.", w), dns.TypeA)
-			if xerr == nil && resp != nil && !strings.Contains(resp.String(), "198.18.7.7") && !strings.Contains(resp.String(), badName) {
+			respL, xerrL := vkExchange(vs, "127.0.0.1", false, fmt.Sprintf("bylist-%d-warm%d.reload.test.", w%permNum, w), dns.TypeA)
+			respA, xerrA := vkExchange(vs, "127.0.0.1", false, fmt.Sprintf("byallowed-warm%d.reload.test.", w), dns.TypeA)
+			if xerr == nil && resp != nil && !strings.Contains(resp.String(), "198.18.7.7") && !strings.Contains(resp.String(), badName) &&
+				xerrL == nil && respL != nil && !strings.Contains(respL.String(), "198.18.7.10") &&
+				xerrA == nil && respA != nil && strings.Contains(respA.String(), "198.18.7.9") {
 				inForce = true
 			} else {
 				time.Sleep(15 * time.Millisecond)
@@ -114,13 +134,16 @@ func TestVerifC02Reload(t *testing.T) {
 		var adminBusy atomic.Int64
 		var asked, overlapped atomic.Int64
 		var wg sync.WaitGroup
-		for w := 0; w < 4; w++ {
+		for w := 0; w < 6; w++ {
 			wg.Add(1)
 			go func(w int) {
 				defer wg.Done()
 				for n := 0; !stop.Load(); n++ {
-					kind := []string{"byname", "byaddr"}[n%2]
+					kind := []string{"byname", "bylist", "byaddr", "bylist", "byallowed", "bylist"}[n%6]
 					name := fmt.Sprintf("%s-%d-%d-%d.reload.test.", kind, round, w, n)
+					if kind == "bylist" {
+						name = fmt.Sprintf("bylist-%d-%d-%d-%d.reload.test.", (n*7+w*67)%permNum, round, w, n)
+					}
 					before := adminBusy.Load()
 					resp, xerr := vkExchange(vs, "127.0.0.1", n%5 == 0, name, dns.TypeA)
 					ov := before%2 == 1 || adminBusy.Load() != before
@@ -136,6 +159,22 @@ func TestVerifC02Reload(t *testing.T) {
 					rep.Eval(ov, fmt.Sprintf("%d|%d|%d", round, w, n))
 					_ = c
 					s := resp.String()
+					if kind == "byallowed" {
+						if !strings.Contains(s, "198.18.7.9") {
+							rep.Violate("reload:allowed-record-blocked-while-reconfiguring",
+								"an answer revealing a name that a rule of the subscribed allowlist allows in every configuration of the run was not delivered while the filter was being reconfigured",
+								map[string]any{"query": name, "reply": s, "admin_operation_in_flight": ov, "round": round})
+						}
+
+						continue
+					}
+					if strings.Contains(s, "198.18.7.10") || strings.Contains(s, ".listed.reload.test") {
+						rep.Violate("reload:upstream-record-delivered-while-reconfiguring:bylist",
+							"an answer revealing a name that every version of the subscribed list blocks was delivered while the filter was being reconfigured",
+							map[string]any{"query": name, "reply": s, "admin_operation_in_flight": ov, "round": round})
+
+						continue
+					}
 					if strings.Contains(s, badIP) || strings.Contains(s, "198.18.7.7") || strings.Contains(s, badName) {
 						rep.Violate("reload:upstream-record-delivered-while-reconfiguring:"+kind,
 							"an answer revealing a value that every configuration of the run blocks was delivered while the filter was being reconfigured",
@@ -145,7 +184,9 @@ func TestVerifC02Reload(t *testing.T) {
 			}(w)
 		}
 		ops := verifkit.Pick(40, 120)
-		for i := 0; i < ops; i++ {
+		// (On a loaded machine the queries are slower: go on until enough of
+		// them overlapped an operation, within a bound.)
+		for i := 0; i < ops || (overlapped.Load() < 200 && i < ops*6); i++ {
 			adminBusy.Add(1)
 			switch k := rng.Intn(4); k {
 			case 0, 1:
@@ -176,11 +217,13 @@ func TestVerifC02Reload(t *testing.T) {
 				if _, serr := os.Stat(p); serr != nil {
 					break
 				}
-				_ = os.Rename(p, p+".aside")
-				_ = os.Symlink(p, p)
+				// (Atomic on both ways: at no instant is the path missing - a
+				// missing file would legitimately mean "this list has no rules".)
+				_ = os.Link(p, p+".aside")
+				_ = os.Symlink(p, p+".loop")
+				_ = os.Rename(p+".loop", p)
 				_, _ = c01HCall(vs, "POST", "/control/filtering/set_rules", map[string]any{"rules": append(append([]string{}, fixed...), fmt.Sprintf("||f%d.other.test^", i))})
 				time.Sleep(time.Duration(20+rng.Intn(40)) * time.Millisecond)
-				_ = os.Remove(p)
 				_ = os.Rename(p+".aside", p)
 				_, _ = c01HCall(vs, "POST", "/control/filtering/set_rules", map[string]any{"rules": fixed})
 				rep.Class("op:set_rules-with-unopenable-list-file")
@@ -227,7 +270,7 @@ func TestVerifC02Reload(t *testing.T) {
 		vs.stop()
 		ls.srv.Close()
 	}
-	if rep.EventCount("queries-overlapping-an-admin-operation") < 500 {
+	if rep.EventCount("queries-overlapping-an-admin-operation") < 200 {
 		rep.Inconcl(fmt.Sprintf("too few queries overlapped an admin operation: %d", rep.EventCount("queries-overlapping-an-admin-operation")))
 	}
 }
